@@ -74,6 +74,7 @@ def _run(cmd, errfile):
 
 def _prune(prefix, keep):
     """keep the `keep` most recently used dirs starting with prefix"""
+    keep = max(keep, int(os.environ.get("VERIF_KEEP_BUILDS", "24")))
     try:
         ds = [d for d in os.listdir(BUILD_ROOT) if d.startswith(prefix)]
     except FileNotFoundError:
